@@ -66,29 +66,11 @@ def np_loglik_terms(dist, levels, scale, y, mu, w):
     raise ValueError(dist)
 
 
-def np_loglik(dist, levels, scale, y, mu, w, poisson_gam, f32=False):
-    """f32=False: the documented densities in closed form, double precision throughout.
-    f32=True: scipy.stats with the documented parameterisation (norm: sd = sqrt(scale / w); gamma: a = w / scale,
-    scale = mu / a; invgauss: mean mu, shape w / scale) and the sample weights in the float32 dtype in which fit /
-    loglikelihood store them.  NumPy then evaluates w / scale in float32 and SciPy evaluates the normalisers
-    (gammaln, log) of a float32 shape parameter in single precision, so this variant differs from the
-    double-precision formula by ~1e-7..1e-5 relative: counted as a suspected (precision) defect, see run()."""
-    import scipy.stats as st
+def np_loglik(dist, levels, scale, y, mu, w, poisson_gam):
+    """the documented densities in closed form, double precision throughout
+    (PoissonGAM treats the weights as exposures: the pmf is evaluated at the counts round(y * w))"""
     if poisson_gam:
         y = np.round(y * w)
-    if f32 and dist in ('normal', 'gamma', 'inv_gauss'):
-        w32 = np.asarray(w, dtype=np.float32)
-        s_ = np.float64(scale)
-        with np.errstate(all='ignore'):
-            if dist == 'normal':
-                t = st.norm.logpdf(y, loc=mu, scale=(s_ / w32) ** 0.5)
-            elif dist == 'gamma':
-                nu = w32 / s_
-                t = st.gamma.logpdf(x=y, a=nu, scale=mu / nu)
-            else:
-                g = w32 / s_
-                t = st.invgauss.logpdf(y, mu / g, scale=g)
-        return np.float64(np.sum(t))
     return np.float64(np.sum(np_loglik_terms(dist, levels, scale, y, mu, w)))
 
 
@@ -255,12 +237,9 @@ def _worker(case):
         scale_o = np.float64(known) if known is not None else pear / (n - edof)
         orc['scale'] = scale_o
         sc = np.float64(impl['scale'])       # the scale the remaining formulas are documented in terms of
-        weighted = w is not None
-        ll_doc = np_loglik(dist, levels, sc, yv, mu, wv, poisson_gam)
-        ll_o = np_loglik(dist, levels, sc, yv, mu, wv, poisson_gam, f32=weighted)
+        ll_o = np_loglik(dist, levels, sc, yv, mu, wv, poisson_gam)
         mu0 = np.full(n, yv.mean())
-        ll0_o = np_loglik(dist, levels, sc, yv, mu0, wv, poisson_gam, f32=weighted)
-        orc['ll_doc'] = ll_doc
+        ll0_o = np_loglik(dist, levels, sc, yv, mu0, wv, poisson_gam)
         D = np_total_dev(dist, levels, yv, mu, wv)
         D0 = np_total_dev(dist, levels, yv, mu0, wv)
         orc.update(ll=ll_o, ll0=ll0_o, D=D, D0=D0)
@@ -354,9 +333,8 @@ def _worker(case):
         with np.errstate(all='ignore'):
             mu0e = np.full(len(ye), ye.mean())
             ent['mu0'] = mu0e
-            ent['ll_doc'] = np_loglik(dist, levels, impl['scale'], ye, mue, we_, poisson_gam)
-            ent['ll_o'] = np_loglik(dist, levels, impl['scale'], ye, mue, we_, poisson_gam, f32=ent['weighted'])
-            ent['ll0_o'] = np_loglik(dist, levels, impl['scale'], ye, mu0e, we_, poisson_gam, f32=ent['weighted'])
+            ent['ll_o'] = np_loglik(dist, levels, impl['scale'], ye, mue, we_, poisson_gam)
+            ent['ll0_o'] = np_loglik(dist, levels, impl['scale'], ye, mu0e, we_, poisson_gam)
             dv = we_ * fitgen.np_deviance(dist, levels, ye, mue)
             ent['r0_o'] = np.sign(ye - mue) * np.sqrt(dv)
             ent['r1_o'] = np.sign(ye - mue) * np.sqrt(dv / impl['scale'])
@@ -404,7 +382,8 @@ def _resid_ok(a, b, tol):
 
 def _ll_tol(ll, n, wmax, scale):
     with np.errstate(all='ignore'):
-        t = 1e-8 * (1 + abs(np.float64(ll))) + 1e-9 * n * (1 + np.float64(wmax) / abs(np.float64(scale)))
+        a = np.float64(wmax) / abs(np.float64(scale))       # largest shape parameter w / scale: gammaln(a) ~ a log a cancels
+        t = 1e-9 * (1 + abs(np.float64(ll))) + 1e-12 * n * (1 + a) * (1 + np.log1p(a))
     return float(t) if np.isfinite(t) else 0.0
 
 
@@ -440,11 +419,11 @@ SCALARS = ['scale', 'AIC', 'AICc', 'GCV', 'UBRE', 'explained', 'mcf', 'mcfadj', 
 def _oracle_findings(r, margin=10.0):
     """list of (stat, observed, expected, detail) where the real code departs from the documented formula by more than
     margin x tolerance"""
-    I, O, c = r['impl'], r['orc'], r['case']
+    I, O = r['impl'], r['orc']
     n, m = r['n'], r['m']
     bad = []
     tols = _scalar_tols(r)
-    zero_scale = (I['scale'] == 0)      # perfect fit with an estimated scale: every scaled deviance is 0/0 (see run())
+    zero_scale = (I['scale'] == 0)      # perfect fit with an estimated scale: every scaled deviance is 0/0 (not judged, see _process)
     for s_ in SCALARS:
         tol = tols[s_]
         if zero_scale and s_ in ('explained', 'deviance'):
@@ -683,11 +662,10 @@ def _process(ctx, results):
 
         # ---- oracle
         ctx.case(st_or, sig, nontrivial=nontriv, sample=small)
-        if np.isfinite(I['ll']) and not _close(I['ll'], O['ll_doc'], _ll_tol(O['ll_doc'], r['n'], np.max(r['w']), I['scale'])):
-            if _close(I['ll'], O['ll'], _ll_tol(O['ll'], r['n'], np.max(r['w']), I['scale'])):
-                ctx.count('suspected-defect', 'log-likelihood (hence AIC, AICc, McFadden) of a weighted %s fit carries float32 rounding of weights/scale: rel. error > 1e-8 vs the double-precision formula' % c['dist'])
         if I['scale'] == 0:
-            ctx.count('suspected-defect', 'estimated scale is exactly 0 (interpolating fit): explained deviance / score / statistics_[deviance] / scaled residuals are 0/0 = NaN instead of 1 / 0')
+            # interpolating fit with an estimated scale of exactly 0: every *scaled* deviance is 0/0 (explained deviance,
+            # score, statistics_['deviance'], scaled residuals); explained_scale_free is stated for scale != 0
+            ctx.count('not-judged: zero estimated scale', 'scaled-deviance statistics are 0/0 = NaN (not compared with the oracle)')
         bad = _oracle_findings(r, margin=10.0)
         oracle_bad = bool(bad)
         if bad:
@@ -761,9 +739,6 @@ def _process(ctx, results):
                     dis.append('accuracy %r vs %r' % (ent['acc'], accM))
                 if np.isfinite(ent['ll']) and np.isfinite(ent['ll0_o']) and np.isfinite(kdM):
                     tol = _ll_tol(abs(ent['ll']) + abs(ent['ll0_o']), len(ent['y']), np.max(ent['w']), I['scale'])
-                    if ent['weighted'] and c['dist'] in ('normal', 'gamma', 'inv_gauss'):
-                        # the implementation evaluates w / scale in float32 (see np_loglik): allow that rounding here
-                        tol += 3e-7 * (abs(ent['ll']) + abs(ent['ll0_o']) + abs(kdM) + len(ent['y']) * (1 + float(np.max(ent['w'])) / abs(np.float64(I['scale']))))
                     if not abs((ent['ll'] - ent['ll0_o']) - kdM) <= tol:
                         dis.append('loglikelihood - null %r vs kernel difference %r' % (ent['ll'] - ent['ll0_o'], kdM))
                 else:
